@@ -135,7 +135,7 @@ OPS = ["Box", "Extrude", "Revolve", "Wedge", "Shell"]
 LOFTED = ["ExtrudedShape", "RevolvedShape", "LoftedShape"]
 STACKS = ["ExtrudedStack", "RevolvedStack", "TransformedStack"]
 # kinds that may be turned and moved as a whole after they were built (`case["post"]`)
-POSTED = ["Cylinder", "SemiCylinder", "Frustum", "Elbow", "ExtrudedRing", "RevolvedRing", "Revolve", "Extrude"] + LOFTED + STACKS
+POSTED = ["Cylinder", "SemiCylinder", "Frustum", "Elbow", "ExtrudedRing", "RevolvedRing", "Hemisphere", "Revolve", "Extrude", "Chain"] + LOFTED + STACKS
 
 
 def gen_frame(rng: random.Random) -> dict:
@@ -221,7 +221,12 @@ def gen_post(rng: random.Random) -> dict:
         ax = [rng.randint(-3, 3) for _ in range(3)]
         if any(ax):
             break
-    return {"angle": rq(rng, 0.3, 2.8), "axis": ax, "origin": [rq(rng, -2, 2, 4) for _ in range(3)], "shift": [rq(rng, -2, 2, 4) for _ in range(3)]}
+    post = {"angle": rq(rng, 0.3, 2.8), "axis": ax, "origin": [rq(rng, -2, 2, 4) for _ in range(3)], "shift": [rq(rng, -2, 2, 4) for _ in range(3)]}
+    if rng.random() < 0.5:
+        # change of units: the finished shape is scaled about a given point
+        post["scale"] = rng.choice(["1/4", "1/2", "2", "3"])
+        post["sorigin"] = [rq(rng, -2, 2, 4) for _ in range(3)]
+    return post
 
 
 def gen_quad(rng: random.Random, x0=0.0, y0=0.0) -> List[List[str]]:
@@ -247,7 +252,7 @@ def gen_round(rng: random.Random, kind: str) -> dict:
         r = rq(rng, 0.5, 2)
         p.update(L=rq(rng, 0.5, 3), R=r, r=str(Fraction(r) * Fraction(rng.choice(["1/4", "1/2", "3/4", "7/8"]))), n=rng.choice([3, 4, 5, 6, 7, 8, 8, 9, 12]))
     elif kind == "RevolvedRing":
-        p.update(face=gen_quad(rng, rq(rng, -1, 1), rq(rng, 0.5, 2)), n=rng.choice([3, 4, 5, 6, 7, 8, 8, 12]))
+        p.update(face=gen_quad(rng, rq(rng, -1, 1), rq(rng, 0.5, 2)), n=rng.choice([3, 4, 5, 6, 7, 8, 8, 12]), reuse=int(rng.random() < 0.5))
     elif kind == "Hemisphere":
         p.update(R=rq(rng, 0.3, 2))
     return p
@@ -339,7 +344,7 @@ def gen_case(rng: random.Random, kind: str) -> dict:
     elif kind == "Revolve":
         c["p"] = {"face": gen_quad(rng, rq(rng, -1, 1), rq(rng, 0.5, 2)), "angle": rq(rng, 0.2, 1.6)}
     elif kind == "Wedge":
-        c["p"] = {"face": gen_quad(rng, rq(rng, -1, 1), rq(rng, 0.5, 2))}
+        c["p"] = {"face": gen_quad(rng, rq(rng, -1, 1), rq(rng, 0.5, 2)), "reuse": int(rng.random() < 0.5)}
         if rng.random() < 0.6:
             c["p"]["angle"] = rq(rng, 0.02, 0.3, 64)
     elif kind == "Shell":
@@ -456,12 +461,18 @@ def post_maps(case: dict):
     a = fl(post["angle"])
     o = np.array([fl(x) for x in post["origin"]])
     sh = np.array([fl(x) for x in post["shift"]])
+    sc = fl(post.get("scale", "1"))
+    so = np.array([fl(x) for x in post.get("sorigin", ["0", "0", "0"])])
 
     def rot(v):
         v = np.asarray(v, dtype=float)
         return v * math.cos(a) + np.cross(ax, v) * math.sin(a) + ax * np.dot(ax, v) * (1 - math.cos(a))
 
-    return (lambda x: rot(np.asarray(x, dtype=float) - o) + o + sh), rot
+    return (lambda x: so + sc * (rot(np.asarray(x, dtype=float) - o) + o + sh - so)), rot
+
+
+def post_scale(case: dict) -> float:
+    return fl((case.get("post") or {}).get("scale", case.get("kwscale", "1")))
 
 
 def apply_post(case: dict, entity) -> None:
@@ -472,6 +483,8 @@ def apply_post(case: dict, entity) -> None:
         ax = np.array([float(a) for a in post["axis"]])
         entity.rotate(fl(post["angle"]), ax / np.linalg.norm(ax), [fl(x) for x in post["origin"]])
         entity.translate([fl(x) for x in post["shift"]])
+        if "scale" in post:
+            entity.scale(fl(post["scale"]), [fl(x) for x in post["sorigin"]])
 
 
 class Built:
@@ -497,7 +510,7 @@ def build(case: dict) -> Built:
     fr = Frame(case)
     kind = case["kind"]
     p = case["p"]
-    kws = [_kw(k, fr.s) for k in case["chop"]["calls"]]
+    kws = [_kw(k, fr.s * post_scale(case)) for k in case["chop"]["calls"]]
     b = Built()
 
     def round_calls(s, which=(0, 1, 2)):
@@ -523,7 +536,12 @@ def build(case: dict) -> Built:
     elif kind == "ExtrudedRing":
         s = cb.ExtrudedRing(fr.P(0, 0, 0), fr.P(0, 0, fl(p["L"])), rp(p["R"], p["phi"]), fr.L(p["r"]), p["n"])
     elif kind == "RevolvedRing":
-        s = cb.RevolvedRing(fr.P(0, 0, 0), fr.P(1, 0, 0), face_from(fr, p["face"]), p["n"])
+        xs = face_from(fr, p["face"])
+        s = cb.RevolvedRing(fr.P(0, 0, 0), fr.P(1, 0, 0), xs, p["n"])
+        if p.get("reuse"):
+            # the user moves his cross-section on (to build the next ring from it): the finished ring is a shape
+            # of its own, made of rotated copies of the cross-section
+            xs.translate(fr.V(1, 0, 0) * fr.L(3))
     elif kind == "Hemisphere":
         s = cb.Hemisphere(fr.P(0, 0, 0), rp(p["R"], p["phi"]), fr.V(0, 0, 1))
     elif kind in JOINTS:
@@ -546,6 +564,8 @@ def build(case: dict) -> Built:
     elif kind == "Wedge":
         face = cb.Face([[fl(x), fl(y), 0.0] for x, y in p["face"]])
         s = place_element(fr, cb.Wedge(face, fl(p["angle"])) if "angle" in p else cb.Wedge(face))
+        if p.get("reuse"):
+            face.translate([3.0, 0.0, 0.0])  # a wedge is revolved from a copy of the face
     elif kind == "Shell":
         d = [fl(x) for x in p["d"]]
         box = place_element(fr, cb.Box([0, 0, 0], d))
@@ -641,7 +661,7 @@ def build_chain(case: dict, fr: Frame, kws) -> Built:
 
     p = case["p"]
     b = Built()
-    base_case = {"kind": p["base"], "p": p["bp"], "q": case["q"], "t": case["t"], "s": case["s"], "chop": case["chop"]}
+    base_case = {"kind": p["base"], "p": p["bp"], "q": case["q"], "t": case["t"], "s": case["s"], "chop": case["chop"], "kwscale": (case.get("post") or {}).get("scale", "1")}
     bb = build(base_case)
     shapes = [bb.shapes[0]]
     b.calls = list(bb.calls)
@@ -686,6 +706,8 @@ def build_chain(case: dict, fr: Frame, kws) -> Built:
         shapes.append(s)
     b.entities = shapes
     b.shapes = shapes
+    for s in shapes:
+        apply_post(case, s)
     return b
 
 
@@ -794,6 +816,21 @@ class C11(core.Check):
                 c["p"].update(keep)
                 c["post"] = gen_post(rng)
                 cases.append(c)
+            # spheres after a change of units (scaled as a whole), alone and as the cap of a cylinder
+            c = gen_case(rng, "Hemisphere")
+            c["post"] = gen_post(rng)
+            c["post"].update(scale=rng.choice(["1/4", "1/2", "2", "3"]), sorigin=[rq(rng, -2, 2, 4) for _ in range(3)])
+            cases.append(c)
+            c = gen_case(rng, "Chain")
+            c["p"] = {"base": "Cylinder", "bp": gen_round(rng, "Cylinder"), "links": [{"op": "Hemisphere.chain", "src": 0, "start": rng.randint(0, 1)}]}
+            c["post"] = gen_post(rng)
+            c["post"].update(scale=rng.choice(["1/4", "1/2", "2", "3"]), sorigin=[rq(rng, -2, 2, 4) for _ in range(3)])
+            cases.append(c)
+            # rings and wedges whose cross-section face is moved on by the user after the shape was built
+            for kind in ("RevolvedRing", "Wedge"):
+                c = gen_case(rng, kind)
+                c["p"]["reuse"] = 1
+                cases.append(c)
             # tapered stacks of sketches whose centre is not a point of their first face
             for sk in ("Oval", "Grid", "Annulus", "HalfDisk"):
                 c = gen_case(rng, "TransformedStack")
@@ -810,6 +847,8 @@ class C11(core.Check):
                 ("Cylinder", "Cylinder.chain", 0), ("Cylinder", "Cylinder.chain", 1), ("Cylinder", "Frustum.chain", 0),
                 ("Cylinder", "Frustum.chain", 1), ("Cylinder", "Elbow.chain", 0), ("Cylinder", "Elbow.chain", 1),
                 ("Cylinder", "Hemisphere.chain", 0), ("Cylinder", "Hemisphere.chain", 1), ("Cylinder", "ExtrudedRing.expand", 0),
+                ("Elbow", "Hemisphere.chain", 0), ("Elbow", "Hemisphere.chain", 1), ("Elbow", "Cylinder.chain", 1),
+                ("Frustum", "Hemisphere.chain", 0),
                 ("ExtrudedRing", "ExtrudedRing.chain", 0), ("ExtrudedRing", "ExtrudedRing.chain", 1),
                 ("ExtrudedRing", "ExtrudedRing.expand", 0), ("ExtrudedRing", "ExtrudedRing.contract", 0),
                 ("ExtrudedRing", "Cylinder.fill", 0),
@@ -887,6 +926,17 @@ class C11(core.Check):
                 arcs.append([e.vertex_1.index, e.vertex_2.index, e.kind, _rat3(e.third_point.position), org])
         out["arcs"] = arcs
         out["edge_kinds"] = sorted({e.kind for e in mesh.edge_list.edges})
+        # faces projected to a declared geometry, and what the geometry section declares
+        out["projected"] = [[fc.label, [v.index for v in fc.side.vertices]] for fc in mesh.face_list.faces]
+        out["geometry"] = {str(k): [str(x) for x in v] for k, v in mesh.geometry_list.geometry.items()}
+        if case["kind"] in JOINTS:
+            # the curved (spline) edges as every operation describes them: block, corners, points
+            spl = []
+            for bi, op in enumerate(ops):
+                for c1, c2, data in op.edges.get_all_beams():
+                    if data.kind == "spline":
+                        spl.append([bi, c1, c2, [_rat3(q) for q in np.asarray(data.curve.array.points)]])
+            out["splines"] = spl
         os.makedirs(SCRATCH, exist_ok=True)
         path = os.path.join(SCRATCH, f"bmd-{os.getpid()}")
         old = signal.signal(signal.SIGALRM, _alarm)
@@ -1107,7 +1157,7 @@ def circles(case: dict) -> List[dict]:
     pmap, vmap = post_maps(case)
 
     def add(c, n, r, nv, na):
-        out.append({"c": pmap(c), "n": vmap(n), "r": float(r), "nv": nv, "na": na})
+        out.append({"c": pmap(c), "n": vmap(n), "r": float(r) * post_scale(case), "nv": nv, "na": na})
 
     if k in ("Cylinder", "SemiCylinder", "Frustum"):
         nv, na = (5, 4) if k == "SemiCylinder" else (8, 8)
@@ -1369,11 +1419,81 @@ def oracle(case: dict, impl: dict) -> List[dict]:
                 viol(f"{cls}:missing-side-arc", f"{nang} revolved side edges are arcs instead of {want}", nang, want)
     if case["kind"] == "Hemisphere":
         c0 = post_maps(case)[0](Frame(case).P(0, 0, 0))
-        rr = Frame(case).L(case["p"]["R"])
+        rr = Frame(case).L(case["p"]["R"]) * post_scale(case)
         dist = np.linalg.norm(fpts - c0, axis=1)
         on = int(np.sum(np.abs(dist - rr) < tol))
         if on != 17 or np.any(dist > rr + tol):
             viol(f"{cls}:off-sphere", f"{on} vertices on the sphere of radius {rr:.6g} instead of 17", on, 17)
+
+    # faces projected to a sphere: the sphere the geometry section declares passes through their vertices
+    for label, vids in impl.get("projected", []):
+        decl = impl.get("geometry", {}).get(label)
+        if not decl or not any("searchableSphere" in x for x in decl):
+            continue
+        try:
+            cen = next(x for x in decl if x.startswith("centre"))
+            c0 = np.array([float(t) for t in cen[cen.index("(") + 1 : cen.index(")")].split()])
+            r0 = float(next(x for x in decl if x.startswith("radius")).split()[1])
+        except (StopIteration, ValueError):
+            viol(f"{cls}:sphere-declaration", f"the declared geometry {label} cannot be read: {decl}")
+            break
+        dev = max(abs(float(np.linalg.norm(fpts[v] - c0)) - r0) for v in vids)
+        if dev > tol + 1e-7:  # the centre is printed with 8 decimals
+            owner = next((bi for bi, b in enumerate(blocks) if all(v in b for v in vids)), 0)
+            viol(
+                f"{block_cls(owner)}:off-declared-sphere",
+                f"a face projected to {decl} has a vertex {dev:.6g} off that sphere",
+                dev,
+                0,
+            )
+            break
+
+    # pipe joints: the curved edges of the mitre cuts lie in the plane of their (flat) face, on the wall of the
+    # two pipes that meet there, and every operation that owns the edge describes the same curve
+    if case["kind"] in JOINTS and "splines" in impl:
+        axes = [(c["c"], c["n"]) for c in circles(case)]  # start centre and direction of every branch
+        rpipe = circles(case)[0]["r"]
+        seen: Dict[frozenset, Any] = {}
+        for bi, c1, c2, qs in impl["splines"]:
+            b = blocks[bi]
+            q = np.array([[float(core.parse_rat(x)) for x in pt] for pt in qs])
+            face = next((f for f in BM_FACES if c1 in f and c2 in f and (f == BM_FACES[0] or f == BM_FACES[1])), None)
+            if face is not None and len(q):
+                fp = fpts[[b[c] for c in face]]
+                fc = fp.mean(axis=0)
+                nrm = np.cross(fp[2] - fp[0], fp[3] - fp[1])
+                nrm = nrm / np.linalg.norm(nrm)
+                flat = float(np.max(np.abs((fp - fc) @ nrm)))
+                off = float(np.max(np.abs((q - fc) @ nrm)))
+                if flat < tol and off > 10 * tol:
+                    viol(f"{cls}:curved-edge-off-its-face", f"the spline of edge {b[c1]}-{b[c2]} (block {bi}) leaves the plane of its face by {off:.6g}", off, 0)
+                    break
+            if len(q):
+                # an outer edge: both ends on the wall of a branch (of both branches for a mitre edge);
+                # the curve stays on every wall its ends lie on
+                ends = fpts[[b[c1], b[c2]]]
+                bad_wall = None
+                for ai, (o, d) in enumerate(axes):
+                    rel = ends - o
+                    if float(np.max(np.abs(np.linalg.norm(rel - np.outer(rel @ d, d), axis=1) - rpipe))) > tol:
+                        continue
+                    rel = q - o
+                    rad = np.linalg.norm(rel - np.outer(rel @ d, d), axis=1)
+                    if float(np.max(np.abs(rad - rpipe))) > 10 * tol:
+                        bad_wall = (ai, float(np.max(np.abs(rad - rpipe))))
+                        break
+                if bad_wall:
+                    viol(f"{cls}:curved-edge-off-the-pipe-wall", f"the spline of edge {b[c1]}-{b[c2]} (block {bi}) leaves the wall of branch {bad_wall[0]}, on which both its ends lie, by {bad_wall[1]:.6g}", bad_wall[1], 0)
+                    break
+            key = frozenset((b[c1], b[c2]))
+            if key in seen and len(q) == len(seen[key][1]):
+                q0 = seen[key][1] if seen[key][0] == b[c1] else seen[key][1][::-1]
+                d = float(np.max(np.linalg.norm(q - q0, axis=1))) if len(q) else 0.0
+                if d > 10 * tol:
+                    viol(f"{cls}:shared-edge-described-differently", f"edge {sorted(key)} is a different curve in block {bi} than in block {seen[key][2]} (up to {d:.6g} apart)", d, 0)
+                    break
+            else:
+                seen.setdefault(key, (b[c1], q, bi))
 
     # 4. the documented chop calls are sufficient for writing
     w = impl["write"]
